@@ -163,7 +163,7 @@ func (d c07Desc) term() string {
 	case 'N':
 		return fmt.Sprintf("SN %d %d", d.k, d.ts)
 	case 'O':
-		return fmt.Sprintf("SO %d %d %d %s %s %d %d", d.k, d.m.ty, d.m.chain, vg.Z(d.m.h), vg.Z(d.m.r), d.m.bid, d.m.ts)
+		return fmt.Sprintf("SO %d %d %d %s %s %d %s", d.k, d.m.ty, d.m.chain, vg.Z(d.m.h), vg.Z(d.m.r), d.m.bid, vg.Z(d.m.ts))
 	}
 	return "SG"
 }
@@ -637,7 +637,9 @@ func c07GenRun(r *vg.Rand, vals []c07Val, pool int, kind int, fracIdx int) *c07R
 			return "valid-prevote"
 		case 8:
 			i := pickSlot(isSigner)
-			slots[i].d = otherMsg(slots[i], func(m *c07Msg) { m.ts++ })
+			slots[i].d = otherMsg(slots[i], func(m *c07Msg) {
+				m.ts += []int64{1, 1, -1, 60, 3600, 86400, 1 << 31, 1 << 32, 1 << 33}[r.Intn(9)]
+			})
 			return "valid-for-other-timestamp"
 		case 9:
 			i := pickSlot(isSigner)
